@@ -89,7 +89,16 @@ def run(facts, rep, tier):
         h, look = reps[0]
         cn = Canon(c, h, 5)
         kinit = cn.r(look["args"][0])
-        ok = re.fullmatch(r"sanitize\(\S+, Case::Pascal\)", kinit) is not None
+        def balanced(t):
+            d = 0
+            for ch in t:
+                d += ch == "("
+                d -= ch == ")"
+                if d < 0:
+                    return False
+            return d == 0
+        mk = re.fullmatch(r"sanitize\((.+), Case::Pascal\)", kinit)
+        ok = mk is not None and balanced(mk.group(1))  # one call: the whole key is the sanitised name
         rep.ob("C14.W1", "lookup-key-sanitised-like-type-names", ok, "replacement key = %s" % kinit if ok else "the replacement lookup key `%s` is not the Pascal-sanitised definition name" % kinit, look.get("sp"))
         gtn = [x for x in c.user_fns() if x["fn"].endswith("util::get_type_name")]
         if gtn:
